@@ -89,3 +89,17 @@ Example C16_nonvacuous :
   [Accepted; Accepted; Accepted; Accepted; Raise ERuntime; Raise ERuntime].
 Proof. vm_compute. reflexivity. Qed.
 Print Assumptions C16_nonvacuous.
+
+(* refused calls: only a successful bake changes the lock; a refused call other than uses / bake changes nothing at all; a refused
+   bake leaves the recipe unlocked with its declarations and steps *)
+Theorem C16_only_accepted_bake_locks : forall s c s' o, step_api s c = (s', o) -> locked s' <> locked s -> c = CBake /\ o = Accepted.
+Proof. exact only_accepted_bake_locks. Qed.
+Print Assumptions C16_only_accepted_bake_locks.
+Theorem C16_refused_call_changes_nothing : forall s c s' e,
+  (forall l, c <> CUses l) -> c <> CBake -> step_api s c = (s', Raise e) -> s' = s.
+Proof. exact refused_call_changes_nothing. Qed.
+Print Assumptions C16_refused_call_changes_nothing.
+Theorem C16_refused_bake_does_not_lock : forall s s' e, locked s = false -> step_api s CBake = (s', Raise e) ->
+  locked s' = false /\ declared s' = declared s /\ steps s' = steps s.
+Proof. exact refused_bake_does_not_lock. Qed.
+Print Assumptions C16_refused_bake_does_not_lock.
